@@ -28,3 +28,6 @@ CHECKS['C10'] = (_SYMX + '; two runs per path with a replaying random source, st
 CHECKS['C13'] = (_SYMX + '; plain SIS reference semantics proved per path',
                  'for every duration / delay-list rule (symbolic values, all interleavings of attempts, recoveries and reinfections within the bound) the history equals the plain reference: attempts infect iff the target is susceptible at that instant, recoveries follow durations, nothing else, nothing at/after tmax',
                  'floats as reals; graphs K2, P3 (K3, P4); <= 3 (4) episodes; delay lists ascending and before recovery; distinct event times', 'DESIGN.md 6/C13')
+CHECKS['C02'] = (_SYMX + '; Gillespie_SIS: law identities from branch conditions; fast_SIS: Poisson coupling against the plain reference semantics',
+                 'Gillespie_SIS: per reachable state (<= E events) clock rate and event masses equal the SIS chain for all parameters; fast_SIS: on every path the history equals the plain contact-process semantics on harness-owned Poisson streams, draws have the reference rates, unsampled contacts provably irrelevant',
+                 'floats as reals; graphs <= 3 (4) nodes; <= 3 (5) events / <= 3 (4) episodes; L2 memorylessness; generic position of contact times', 'DESIGN.md 6/C02')
